@@ -183,7 +183,9 @@ def load_counter(filename):
         dfile.readline()
         counter = Counter()
         for line in dfile:
-            key, count = line.strip().split('\t')
+            # only remove the line break; the key can be the empty string
+            # (outcome of events without outcomes)
+            key, count = line.rstrip('\n').split('\t')
             if key in counter.keys():
                 raise ValueError("%s contains two instances (words, symbols, ...) of the same spelling." % filename)
             counter[key] = int(count)
